@@ -54,7 +54,7 @@ func newHTTPUpstreamProxy(upstream options.Upstream, u *url.URL, sigData *option
 	// Set up a WebSocket proxy if required
 	var wsProxy http.Handler
 	if upstream.ProxyWebSockets == nil || *upstream.ProxyWebSockets {
-		wsProxy = newWebSocketReverseProxy(u, upstream.InsecureSkipTLSVerify)
+		wsProxy = newWebSocketReverseProxy(u, upstream)
 	}
 
 	var auth hmacauth.HmacAuth
@@ -196,15 +196,24 @@ func setProxyDirector(proxy *httputil.ReverseProxy) {
 }
 
 // newWebSocketReverseProxy creates a new reverse proxy for proxying websocket connections.
-func newWebSocketReverseProxy(u *url.URL, skipTLSVerify bool) http.Handler {
+func newWebSocketReverseProxy(u *url.URL, upstream options.Upstream) http.Handler {
 	wsProxy := httputil.NewSingleHostReverseProxy(u)
 
 	// Inherit default transport options from Go's stdlib
 	transport := http.DefaultTransport.(*http.Transport).Clone()
 
 	/* #nosec G402 */
-	if skipTLSVerify {
+	if upstream.InsecureSkipTLSVerify {
 		transport.TLSClientConfig.InsecureSkipVerify = true
+	}
+
+	// WebSocket requests are sent upstream the same way as any other request:
+	// the (possibly rewritten) request URI as received, and the upstream's
+	// host header when the host header is not passed
+	setProxyDirector(wsProxy)
+
+	if upstream.PassHostHeader != nil && !*upstream.PassHostHeader {
+		setProxyUpstreamHostHeader(wsProxy, u)
 	}
 
 	// Apply the customized transport to our proxy before returning it
